@@ -76,7 +76,7 @@ struct ReclAdapter : Adapter {
     xv::Quiet q; delete guards[tid]; guards[tid] = nullptr;
   }
   std::string deref(Guard& g) {
-    if (!g) return "null";
+    if (g.get() == nullptr) return "null";   // operator bool is also true for a marked null pointer
     long c = g->canary; long id = g->id;
     if (c != 0xA11CE) { xv::Quiet q; violation = "guarded node " + std::to_string(id) + " was destroyed while a guard_ptr protects it (canary " + std::to_string(c) + ")"; xv::fail(xv::S_ORACLE, violation); return "DEAD"; }
     xv::Quiet q; return std::to_string(id);
@@ -108,7 +108,7 @@ struct ReclAdapter : Adapter {
         Node* n = o == "repl" ? new Node(g_next_id++) : nullptr;
         MPtr exp = g;
         if ((*cells)[a].compare_exchange_strong(exp, MPtr(n), std::memory_order_acq_rel, std::memory_order_relaxed)) {
-          if (g) { long id = g->id; g.reclaim(mkdel(id)); }
+          if (g.get() != nullptr) { long id = g->id; g.reclaim(mkdel(id)); }   // (a marked null pointer is a value, not an object)
           return "ok";
         }
         delete n;
@@ -151,7 +151,8 @@ struct ReclAdapter : Adapter {
     // flush: public API only. Unlink and retire everything, then cycle through critical regions / retire+scan rounds.
     for (int i = 0; i < ncells; i++) {
       Guard g; g.acquire((*cells)[i], std::memory_order_acquire);
-      if (g) { (*cells)[i].store(MPtr(nullptr), std::memory_order_release); long id = g->id; g.reclaim(mkdel(id)); }
+      if (g.get() != nullptr) { (*cells)[i].store(MPtr(nullptr), std::memory_order_release); long id = g->id; g.reclaim(mkdel(id)); }
+      else if (g) (*cells)[i].store(MPtr(nullptr), std::memory_order_release);
     }
     CPtr scratch; scratch.store(new Node(g_next_id++), std::memory_order_relaxed);
     for (int r = 0; r < flushes; r++) {
